@@ -31,7 +31,8 @@ DROPPED = [
     "R15 `mem::swap(&mut a[i], &mut b[i])` -> swap_at(&mut a, &mut b, i)",
     "witness_size differences in the sort key are i64 arithmetic on usize casts: overflow freedom needs the (unchecked, listed) precondition that witness sizes are below 2^62",
     "Callees Witness::{empty, push_0, combine, signature}, Satisfaction::{empty, push_0, concatenate_rev, TRIVIAL, IMPOSSIBLE} are consumed through the contracts proved in unit c01_satisfier (same contract text, emitted by calling that unit's functions through an `assumed` proxy)",
-    "Terminal::SortedMulti / SortedMultiA: `thresh.clone().into_sorted_bip67()` (secp256k1 serialisation + sort of the keys) is not verified; multi / multi_a are verified for an arbitrary key order",
+    "multi / multi_a are verified for an arbitrary key order; the SortedMulti / SortedMultiA arms (which key order is passed in) are clauses of unit c01_satisfier's step",
+    "rewrites of constructs whose absence leaves nothing un-rewritten (vec![x; n], max_by_key, (0..n).collect(), mem::swap, the `for sat in &ret_stack { assert!(..) }` loop) are optional: a tree without them is verified as it stands",
 ]
 
 
@@ -79,7 +80,7 @@ def vec_repeat_rw(required=True):
 
 
 def for_slice_loop(for_prefix, slice_expr, src, elem, index, invariant, decreases=None, reverse=False,
-                   except_break=None, ensures=None, body_pre="", body_post="", after="", before=""):
+                   except_break=None, ensures=None, body_pre="", body_post="", after="", before="", required=True):
     """R8: `for PAT in ITER { BODY }` over a slice ->
         let SRC = <slice_expr>; let mut INDEX: usize = 0;
         while INDEX < SRC.len() invariant .. { let ELEM = &SRC[INDEX | SRC.len()-1-INDEX]; <ghost pre> BODY <ghost post> INDEX += 1; }
@@ -90,7 +91,7 @@ def for_slice_loop(for_prefix, slice_expr, src, elem, index, invariant, decrease
         try:
             b = reg._find_block(for_prefix)
         except Exception:
-            return None
+            return None if required else text      # no such loop: nothing to rewrite (and no obligation from it)
         header = text[b.stmt_start:b.start - 1]
         rev = (".rev()" in header) if reverse == "auto" else reverse
         idx_expr = "%s.len() - 1 - %s" % (src, index) if rev else index
@@ -108,7 +109,7 @@ def for_slice_loop(for_prefix, slice_expr, src, elem, index, invariant, decrease
     return rw
 
 
-def range_for_invariant(for_prefix, index, invariant, body_pre="", body_post="", after="", before=""):
+def range_for_invariant(for_prefix, index, invariant, body_pre="", body_post="", after="", before="", required=True):
     """R8: `for PAT in LO..HI { BODY }` keeps its range; the loop variable gets a name and the loop an invariant
     (Verus supports range `for` natively)."""
     @rule("R8-range")
@@ -117,7 +118,7 @@ def range_for_invariant(for_prefix, index, invariant, body_pre="", body_post="",
         try:
             b = reg._find_block(for_prefix)
         except Exception:
-            return None
+            return None if required else text
         header = text[b.stmt_start:b.start - 1]
         m = re.match(r"for\s+(\w+)\s+in\s+(.*?)\s*$", header, flags=re.S)
         if not m:
@@ -130,17 +131,20 @@ def range_for_invariant(for_prefix, index, invariant, body_pre="", body_post="",
 
 def fold_to_loop(shapes, name="R14-fold"):
     """R14: `XS.into_iter().fold(INIT, F)` -> a block expression running std's definition of fold:
-        { let fold_src = XS; let mut ACC = INIT; let ghost fold_init = ACC; let mut fold_i: usize = 0;
-          while fold_i < fold_src.len() invariant .. { let X = vec_take(&fold_src, fold_i); ACC = F(ACC, X); fold_i += 1; }
-          ACC }
-    F is either a closure `|ACC, X| BODY` (BODY verbatim) or a path (called as `PATH(acc, x)`).
-    `shapes` maps a regex on INIT (the accumulator's type is read off INIT) to dict(invariant, pre, post): the proof
-    scaffolding for that accumulator shape; an INIT matching no shape is an anchor loss (UNDECIDED, never guessed)."""
+        ({ let fold_src = XS; let mut ACC = INIT; let ghost fold_init = ACC; let mut fold_i: usize = 0;
+           while fold_i < fold_src.len() invariant .. { let X = vec_take(&fold_src, fold_i); ACC = F(ACC, X); fold_i += 1; }
+           ACC })
+    Also `XS.iter().cloned().fold(..)` (fold_src = &XS, X = fold_src[fold_i].clone()), `XS.iter().fold(..)`
+    (X = &fold_src[fold_i]) and their `.rev()` forms (element len-1-fold_i).  F is either a closure `|ACC, X| BODY` (BODY verbatim) or a path (called as `PATH(acc, x)`).
+    Rewrites the FIRST fold of the text.  `shapes` maps a regex on INIT (the accumulator's type is read off INIT) to
+    dict(invariant, before, pre, post, after): the proof scaffolding for that accumulator shape; an INIT matching no
+    shape is an anchor loss (UNDECIDED, never guessed)."""
     @rule(name)
     def rw(text):
-        m = re.search(r"([\w.]+)\s*\.into_iter\(\)\s*\.fold\(", text)
+        m = re.search(r"([\w.]+)\s*\.(into_iter\(\)(?:\s*\.rev\(\))?|iter\(\)(?:\s*\.rev\(\))?\s*\.cloned\(\)|iter\(\)\s*\.cloned\(\)\s*\.rev\(\)|iter\(\)(?:\s*\.rev\(\))?)\s*\.fold\(", text)
         if not m:
             return None
+        how = re.sub(r"\s+", "", m.group(2))
         open_p = m.end() - 1
         close_p = match_close(text, open_p)
         args = text[open_p + 1:close_p]
@@ -170,13 +174,18 @@ def fold_to_loop(shapes, name="R14-fold"):
                 break
         if shape is None:
             raise Undecided("fold_to_loop: accumulator shape of `%s` unknown (anchor lost)" % init)
+        idx = "fold_src.len() - 1 - fold_i" if ".rev()" in how else "fold_i"       # a reversed iterator yields the last element first
+        how = how.replace(".rev()", "")
+        src, elem = {"into_iter()": (m.group(1), "vec_take(&fold_src, %s)" % idx),
+                     "iter().cloned()": ("&" + m.group(1), "fold_src[%s].clone()" % idx),
+                     "iter()": ("&" + m.group(1), "&fold_src[%s]" % idx)}[how]
         fmt = dict(acc=acc, x=x)
         block = ("({\n            let fold_src = %s;\n            let mut %s = %s;\n            let ghost fold_init = %s;\n%s"
                  "            let mut fold_i: usize = 0;\n            while fold_i < fold_src.len()\n                invariant\n%s\n"
                  "                decreases fold_src.len() - fold_i\n            {\n%s"
-                 "                let %s = vec_take(&fold_src, fold_i);\n                %s = %s;\n%s                fold_i += 1;\n            }\n%s            %s\n        })") % (
-            m.group(1), acc, init, acc, shape.get("before", "") % fmt, shape["invariant"] % fmt, shape.get("pre", "") % fmt,
-            x, acc, step, shape.get("post", "") % fmt, shape.get("after", "") % fmt, acc)
+                 "                let %s = %s;\n                %s = %s;\n%s                fold_i += 1;\n            }\n%s            %s\n        })") % (
+            src, acc, init, acc, shape.get("before", "") % fmt, shape["invariant"] % fmt, shape.get("pre", "") % fmt,
+            x, elem, acc, step, shape.get("post", "") % fmt, shape.get("after", "") % fmt, acc)
         return text[:m.start()] + block + text[close_p + 1:]
     return rw
 
@@ -205,12 +214,14 @@ def lift_sort_key(holder, stub):
     return rw
 
 
-def swap_rw():
+def swap_rw(required=False):
     """R15: `mem::swap(&mut A[I], &mut B[I])` -> `swap_at(&mut A, &mut B, I)` (same index expression on both sides)."""
     @rule("R15-swap")
     def rw(text):
         m = re.search(r"mem::swap\(&mut (\w+)\[(.+?)\], &mut (\w+)\[(.+?)\]\)", text)
-        if not m or m.group(2) != m.group(4):
+        if not m:
+            return None if required else text
+        if m.group(2) != m.group(4):
             return None
         return text[:m.start()] + "swap_at(&mut %s, &mut %s, %s)" % (m.group(1), m.group(3), m.group(2)) + text[m.end():]
     return rw
@@ -260,6 +271,9 @@ class AssumedProxy:
         return None
 
     def step(self, *a, **kw):
+        return None
+
+    def fn_text(self, *a, **kw):
         return None
 
 
@@ -524,6 +538,19 @@ proof fn lemma_mall_complete<Pk: MiniscriptKey>(si: Seq<usize>, sel: Seq<bool>, 
         }
     }
 }
+proof fn lemma_locks_inherited_step<Pk: MiniscriptKey>(old_acc: Satisfaction<Placeholder<Pk>>, x: Satisfaction<Placeholder<Pk>>, new_acc: Satisfaction<Placeholder<Pk>>,
+                                                       a: Seq<Satisfaction<Placeholder<Pk>>>, b: Seq<Satisfaction<Placeholder<Pk>>>, i: int)
+    requires locks_inherited(old_acc, a, b), 0 <= i < a.len(), i < b.len(), x == a[i] || x == b[i],
+             wkind(new_acc.stack) != 2 ==> wkind(old_acc.stack) != 2 && wkind(x.stack) != 2
+                 && (new_acc.absolute_timelock == old_acc.absolute_timelock || new_acc.absolute_timelock == x.absolute_timelock)
+                 && (new_acc.relative_timelock == old_acc.relative_timelock || new_acc.relative_timelock == x.relative_timelock),
+    ensures locks_inherited(new_acc, a, b),
+{
+    if wkind(new_acc.stack) != 2 {
+        if new_acc.absolute_timelock is Some && new_acc.absolute_timelock == x.absolute_timelock { assert(carries_abs(a[i], new_acc.absolute_timelock) || carries_abs(b[i], new_acc.absolute_timelock)); }
+        if new_acc.relative_timelock is Some && new_acc.relative_timelock == x.relative_timelock { assert(carries_rel(a[i], new_acc.relative_timelock) || carries_rel(b[i], new_acc.relative_timelock)); }
+    }
+}
 // where the sorted order puts the children, seen from the k-th position (0-based) of the order
 proof fn lemma_nm_positions<Pk: MiniscriptKey>(si: Seq<usize>, sel: Seq<bool>, sats: Seq<Satisfaction<Placeholder<Pk>>>, k: int, n: int)
     requires si.len() == n, sel.len() == n, sats.len() == n, 1 <= k < n <= usize::MAX,
@@ -553,12 +580,35 @@ proof fn lemma_nm_positions<Pk: MiniscriptKey>(si: Seq<usize>, sel: Seq<bool>, s
 """
 
 
-def thresh_fold_shapes(after):
-    sat = dict(
+def thresh_fold_shapes(after, extra_inv="", pre="", post=""):
+    sat = dict(pre=pre, post=post,
         invariant="""                    fold_i <= fold_src@.len(),
-                    abs_sat(%(acc)s) == t_concat(abs_all(fold_src@), fold_i as int), //@inv result_is_the_table_juxtaposition_while_folding [C01,C02,C03,C17]""",
+                    abs_sat(%(acc)s) == t_concat(abs_all(fold_src@), fold_i as int), //@inv result_is_the_table_juxtaposition_while_folding [C01,C02,C03,C17]""" + extra_inv,
         after=after)
     return [(r"(Self|Satisfaction)::empty\(\)", sat)]
+
+
+def thresh_clauses(mall, r="r", k="k as int", n="n as int", sats="sats@", dis="dissats@", guards=()):
+    """The contract of Satisfaction::thresh_mall / thresh as clause list; also used by unit c01_satisfier for the
+    Thresh arm of the step (r := r.sat, sats/dissats := the children's entries on the stack; `guards` are nested
+    hypotheses g1 ==> (g2 ==> (clause)))."""
+    def w(body):
+        for gd in reversed(guards):
+            body = "%s ==> (%s)" % (gd, body)
+        return body
+    sel = "exists|sel: Seq<bool>| #[trigger] is_selection(sel, %s, %s) && " % (k, n)
+    imp = Clause("impossible_when_every_choice_of_k_includes_an_impossible_satisfaction", ("C02", "C03"),
+                 w("(forall|sel: Seq<bool>| #[trigger] is_selection(sel, %s, %s) ==> exists|j: int| 0 <= j < %s && sel[j] && wkind((#[trigger] %s[j]).stack) == 2) ==> wkind(%s.stack) == 2" % (k, n, n, sats, r)))
+    locks = Clause("locks_are_inherited", ("C17",), w("locks_inherited(%s, %s, %s)" % (r, sats, dis)))
+    if mall:
+        row = "abs_sat(%s) == t_concat(chosen(sel, %s, %s), %s)" % (r, sats, dis, n)
+        hyp = "((forall|j: int| 0 <= j < %s ==> dissat_of_d_child(true, #[trigger] %s[j])) && (exists|s: Seq<bool>| #[trigger] k_available(s, %s, %s, %s)))" % (n, dis, sats, k, n)
+        return [
+            Clause("result_is_the_table_juxtaposition_with_exactly_k_sats", ("C01", "C02", "C17"), w(sel + row)),
+            Clause("complete_all_entries_available_when_k_satisfactions_are", ("C02",), w("%s ==> %s%s && all_concrete(chosen(sel, %s, %s))" % (hyp, sel, row, sats, dis))),
+            Clause("complete_never_withheld_when_k_satisfactions_are_available", ("C02",), w("%s ==> wkind(%s.stack) != 1" % (hyp, r))),
+            imp, locks]
+    return [Clause("result_is_the_nonmalleable_row", ("C01", "C03", "C17"), w(sel + "thresh_nonmall_row(%s, sel, %s, %s)" % (r, sats, dis))), imp, locks]
 
 
 def threshes(vf):
@@ -608,9 +658,17 @@ def threshes(vf):
                 }
             }
 """
+    inv_locks = """
+                    fold_src@.len() == n,
+                    sats0.len() == n,
+                    dissats0.len() == n,
+                    forall|j: int| 0 <= j < n ==> (#[trigger] fold_src@[j]) == sats0[j] || fold_src@[j] == dissats0[j],
+                    locks_inherited(%(acc)s, sats0, dissats0), //@inv locks_are_inherited [C17]"""
+    pre_locks = "                let ghost acc_before = %(acc)s;\n"
+    post_locks = "                proof { lemma_locks_inherited_step(acc_before, fold_src@[fold_i as int], %(acc)s, sats0, dissats0, fold_i as int); }\n"
     common = lambda holder, stub: [
         lit("R10", "let mut ret_stack = dissats;", ghost0 + "        let mut ret_stack = dissats;"),
-        sub("R15-range-collect", r"\(0\.\.(\w+)\)\.collect::<Vec<_>>\(\)", r"range_vec(\1)"),
+        sub("R15-range-collect", r"\(0\.\.(\w+)\)\.collect::<Vec<_>>\(\)", r"range_vec(\1)", required=False),
         lift_sort_key(holder, stub),
         swap_rw(),
         range_for_invariant("for i in 0..k", "i", inv_swap, body_pre=pre_swap, body_post=post_swap, before=before_swap),
@@ -620,16 +678,8 @@ def threshes(vf):
     with vf.block("impl<Pk: MiniscriptKey + ToPublicKey> Satisfaction<Placeholder<Pk>>"):
         # ---- malleable mode --------------------------------------------------------------------------------
         vf.fn(SAT, SATIMPL + "/fn:thresh_mall", qual="Satisfaction", props=P,
-              rewrites=common(hm, "sort_indices_mall") + [fold_to_loop(thresh_fold_shapes(after_fold_mall))],
-              contract=Contract(requires=pre, ensures=[
-                  Clause("result_is_the_table_juxtaposition_with_exactly_k_sats", ("C01", "C02", "C17"),
-                         "exists|sel: Seq<bool>| #[trigger] is_selection(sel, k as int, n as int) && %s" % row_mall),
-                  Clause("complete_all_entries_available_when_k_satisfactions_are", ("C02",),
-                         "%s ==> exists|sel: Seq<bool>| #[trigger] is_selection(sel, k as int, n as int) && %s && all_concrete(chosen(sel, %s, %s))" % (HYP_MALL, row_mall, SATS, DIS)),
-                  Clause("complete_never_withheld_when_k_satisfactions_are_available", ("C02",), "%s ==> wkind(r.stack) != 1" % HYP_MALL),
-                  Clause("impossible_when_every_choice_of_k_includes_an_impossible_satisfaction", ("C02", "C03"),
-                         "(forall|sel: Seq<bool>| #[trigger] is_selection(sel, k as int, n as int) ==> exists|j: int| 0 <= j < n && sel[j] && wkind((#[trigger] %s[j]).stack) == 2) ==> wkind(r.stack) == 2" % SATS),
-              ]))
+              rewrites=common(hm, "sort_indices_mall") + [fold_to_loop(thresh_fold_shapes(after_fold_mall, inv_locks, pre_locks, post_locks))],
+              contract=Contract(requires=pre, ensures=thresh_clauses(True)))
         register_named_invariants(vf, "Satisfaction::thresh_mall")
         # ---- non-malleable mode ----------------------------------------------------------------------------
         nm_pre = pre + ["forall|j: int| 0 <= j < n ==> dissat_of_d_child(false, #[trigger] dissats@[j])"]
@@ -642,15 +692,11 @@ def threshes(vf):
               rewrites=common(hn, "sort_indices_nonmall") + [
                   lit("R10", "if sats[sat_indices[k - 1]].stack == Witness::Impossible", positions + "if sats[sat_indices[k - 1]].stack == Witness::Impossible"),
                   for_slice_loop("for sat in &ret_stack", "&ret_stack", "rs", "sat", "rs_i",
-                                 "                rs@ == ret_stack@,\n                forall|j: int| 0 <= j < rs@.len() ==> !(#[trigger] rs@[j]).has_sig, //@inv asserted_entries_carry_no_signature [C03,C11]"),
-                  fold_to_loop(thresh_fold_shapes(after_fold)),
+                                 "                rs@ == ret_stack@,\n                forall|j: int| 0 <= j < rs@.len() ==> !(#[trigger] rs@[j]).has_sig, //@inv asserted_entries_carry_no_signature [C03,C11]",
+                                 required=False),
+                  fold_to_loop(thresh_fold_shapes(after_fold, inv_locks, pre_locks, post_locks)),
               ],
-              contract=Contract(requires=nm_pre, ensures=[
-                  Clause("result_is_the_nonmalleable_row", ("C01", "C03", "C17"),
-                         "exists|sel: Seq<bool>| #[trigger] is_selection(sel, k as int, n as int) && thresh_nonmall_row(r, sel, %s, %s)" % (SATS, DIS)),
-                  Clause("impossible_when_every_choice_of_k_includes_an_impossible_satisfaction", ("C02", "C03"),
-                         "(forall|sel: Seq<bool>| #[trigger] is_selection(sel, k as int, n as int) ==> exists|j: int| 0 <= j < n && sel[j] && wkind((#[trigger] %s[j]).stack) == 2) ==> wkind(r.stack) == 2" % SATS),
-              ]))
+              contract=Contract(requires=nm_pre, ensures=thresh_clauses(False)))
         register_named_invariants(vf, "Satisfaction::thresh")
         # ---- the sort keys: the closure bodies, verbatim, as functions of their captured variables ------------
         key_pre = ["i < sats@.len()", "i < ret_stack@.len()", "size_ok(sats@[i as int])", "size_ok(ret_stack@[i as int])"]
@@ -690,14 +736,14 @@ trait ScriptContext: Sized {
 """)
     vf.item(SAT, "enum:SchnorrSigType", rewrites=[DERIVE_TRIM])
     vf.item(SAT, "enum:Placeholder", rewrites=[DERIVE_TRIM])
-    vf.item(SAT, "enum:Witness", rewrites=[DERIVE_TRIM])
-    vf.item(SAT, "struct:Satisfaction", rewrites=[DERIVE_TRIM])
+    vf.item(SAT, "enum:Witness", rewrites=[C1.DERIVE_NO_CLONE])
+    vf.item(SAT, "struct:Satisfaction", rewrites=[C1.DERIVE_NO_CLONE])
     vf.item(SD, "struct:SatDissat")
     vf.raw(C1.GLUE)
-    vf.trust("PartialEqSpecImpl for Witness<T>", "derived PartialEq is structural equality; derived Clone returns an equal value")
+    vf.trust("PartialEqSpecImpl for Witness<T>; impl Clone for Witness<T> / Satisfaction<T> (external_body)", "derived PartialEq is structural equality; derived Clone returns an equal value (unit c01_satisfier's GLUE)")
     vf.raw(C1.oracle_text())
     # callee contracts: emitted by unit c01_satisfier's own code, bodies dropped
-    C1.algebra(AssumedProxy(vf, keep={"empty", "push_0", "combine", "signature", "concatenate_rev"}, raw_ok=(C1.LEAF_SPEC,)))
+    C1.leaf_algebra(AssumedProxy(vf, keep={"empty", "push_0", "combine", "signature", "concatenate_rev"}, raw_ok=(C1.LEAF_SPEC,)))
     vf.trust("Witness::{empty, push_0, combine, signature}, Satisfaction::{empty, push_0, concatenate_rev} (external_body, contract only)",
              "callee contracts proved on the real bodies in unit c01_satisfier; the contract text is that unit's (emitted through AssumedProxy)")
 
@@ -790,11 +836,11 @@ def multis(vf):
     with vf.block("impl<Pk: MiniscriptKey + ToPublicKey> Satisfaction<Placeholder<Pk>>"):
         vf.fn(SD, SATIMPL + "/fn:multi", qual="Satisfaction", props=P, rewrites=[
             const_as_fn("TRIVIAL"),
-            vec_repeat_rw(),
+            vec_repeat_rw(required=False),
             for_slice_loop("for pk in thresh.data()", "thresh.data()", "keys", "pk", "i", inv_collect,
                            body_pre="            let ghost sigs_before = sigs@;\n", body_post=post_collect,
                            after="        proof { lemma_flat_len_singletons(sigs@, sig_count as int); }\n"),
-            sub("R15-max-by-key", r"(\w+)\s*\.iter\(\)\s*\.enumerate\(\)\s*\.max_by_key\(\|&\(_, v\)\| v\.len\(\)\)\s*\.unwrap\(\)\s*\.0", r"index_of_longest(&\1)"),
+            sub("R15-max-by-key", r"(\w+)\s*\.iter\(\)\s*\.enumerate\(\)\s*\.max_by_key\(\|&\(_, v\)\| v\.len\(\)\)\s*\.unwrap\(\)\s*\.0", r"index_of_longest(&\1)", required=False),
             range_for_invariant("for _ in", "blank_i", inv_blank, body_pre=pre_blank, body_post=post_blank),
             fold_to_loop(multi_fold_shapes(tail_multi)),
         ], contract=Contract(
@@ -846,7 +892,7 @@ def multis(vf):
     with vf.block("impl<Pk: MiniscriptKey + ToPublicKey> Satisfaction<Placeholder<Pk>>"):
         vf.fn(SD, SATIMPL + "/fn:multi_a", qual="Satisfaction", props=P, rewrites=[
             const_as_fn("TRIVIAL"),
-            vec_repeat_rw(),
+            vec_repeat_rw(required=False),
             lit("R10", "break;", step_a + "                        break;"),
             for_slice_loop("for (i, pk) in thresh.iter()", "thresh.data()", "keys", "pk", "i", inv_a, reverse="auto",
                            except_break=inv_a_nb, ensures=ens_a, body_pre=pre_a, body_post=post_a),
